@@ -90,9 +90,13 @@ func checkExpansionSchemas(c *Ctx, ev *evaluator) {
 				}
 			}
 		}
-		if !c.Check("R1.3", key+": a non-terminal is synthesised for the operand", cs.clause.Pos(), gen != nil && operand != nil, "no `gen := table.GetX(rhs[1].Val)` found") {
+		if gen == nil || operand == nil {
+			// the action does not have the shape `s := rhs[1].Val…; gen := table.GetX(s); …AddProduction…` (it may hand the work to a
+			// helper or share one clause between the operators): the schema of its productions is not read off, which is not a verdict
+			c.Undecided("R1.3", key+": a non-terminal is synthesised for the operand", cs.clause.Pos(), "no `gen := table.GetX(rhs[1].Val)` in the clause itself: the productions this operator adds are not decided")
 			continue
 		}
+		c.Pass("R1.3", key+": a non-terminal is synthesised for the operand", cs.clause.Pos(), "")
 		// collect AddProduction calls: inside a loop over the operand (per alternative α) or outside
 		forms := map[string]bool{}
 		bad := ""
@@ -709,6 +713,78 @@ func checkNameSpaces(c *Ctx, ev *evaluator) {
 		}
 		return true
 	})
+	// (e) a name taken from the symbols themselves is taken from ONE symbol: a name put together from several symbol names
+	// (strings.Join, concatenation, accumulation in a loop) is ambiguous as soon as the separator can occur in a name,
+	// and IDENT admits '_', digits and letters: {a b_c} and {a_b c} would share one synthesised rule.
+	{
+		composed, unclear := token.NoPos, token.NoPos
+		how := ""
+		ast.Inspect(synth.Body, func(n ast.Node) bool {
+			as, ok := n.(*ast.AssignStmt)
+			if !ok || len(as.Lhs) != len(as.Rhs) {
+				return true
+			}
+			for i, l := range as.Lhs {
+				lt := info.TypeOf(l)
+				if lt == nil {
+					continue
+				}
+				if b, ok := lt.Underlying().(*types.Basic); !ok || b.Info()&types.IsString == 0 {
+					continue
+				}
+				switch r := ast.Unparen(as.Rhs[i]).(type) {
+				case *ast.CallExpr:
+					if f2, ok := objOf(info, r.Fun).(*types.Func); ok && f2.Pkg() != nil && f2.Pkg().Path() == "strings" && f2.Name() == "Join" && len(r.Args) == 2 {
+						if sep, ok := constStr(info, r.Args[1]); ok {
+							inIdent := true
+							for _, ch := range sep {
+								if !(ch == '_' || ch >= '0' && ch <= '9' || ch >= 'a' && ch <= 'z' || ch >= 'A' && ch <= 'Z') {
+									inIdent = false
+								}
+							}
+							if inIdent {
+								composed, how = as.Pos(), fmt.Sprintf("strings.Join(…, %q)", sep)
+							} else {
+								unclear = as.Pos()
+							}
+						} else {
+							unclear = as.Pos()
+						}
+					}
+				case *ast.BinaryExpr:
+					if r.Op == token.ADD {
+						if _, isC := constStr(info, r); !isC {
+							nonConst := 0
+							for _, op := range []ast.Expr{r.X, r.Y} {
+								if _, isC := constStr(info, op); !isC {
+									nonConst++
+								}
+							}
+							if nonConst >= 2 || as.Tok == token.ADD_ASSIGN {
+								composed, how = as.Pos(), "a concatenation of several name parts"
+							}
+						}
+					}
+				}
+				if as.Tok == token.ADD_ASSIGN {
+					if _, isC := constStr(info, as.Rhs[i]); !isC {
+						composed, how = as.Pos(), "an accumulation with +="
+					}
+				}
+			}
+			return true
+		})
+		key := "a synthesised name that is taken from the symbols is taken from a single symbol"
+		switch {
+		case composed != token.NoPos:
+			c.Fail("R1.2", key, composed, "the name is "+how+" over the symbols of a sub-expression: the parts are IDENTs, which may contain the separator themselves, so two different sub-expressions under one operator get one non-terminal and their productions merge",
+				"start = {item sep} \"!\" {item_sep}; item = \"a\"; sep = \",\"; item_sep = \"b\";  (both repetitions become gen_item_sep_star)")
+		case unclear != token.NoPos:
+			c.Undecided("R1.2", key, unclear, "a name is joined from several parts with a separator that was not resolved")
+		default:
+			c.Pass("R1.2", key, synth.Pos(), "")
+		}
+	}
 	// suffix arguments at the call sites
 	suffixes := map[string]bool{}
 	AllFuncDecls(sp, func(fd *ast.FuncDecl) {
